@@ -119,7 +119,11 @@ func runC06(cs c06Case) (string, []lib.Problem) {
 	add := func(cut int, t uint64, mode, key, f string, a ...any) {
 		k := "checkpoint:" + key + ":" + mode + ":" + sig
 		if key == "final-state-differs-only-in-generated-ids" {
-			k = "checkpoint:" + key + ":" + mode // one root cause across all assemblies
+			fam := "memory-chain"
+			if cs.VM != nil {
+				fam = "translation-stack"
+			}
+			k = "checkpoint:" + key + ":" + mode + ":" + fam // one root cause per (mode, scenario family)
 		}
 		if seen[k] {
 			return
@@ -148,6 +152,7 @@ func runC06(cs c06Case) (string, []lib.Problem) {
 				continue
 			}
 			err := src.env.Sim.SaveCheckpoint(path, "verif")
+			idAtSave := timing.GetIDGeneratorNextID()
 			src.env.Close()
 			if err != nil {
 				add(ci, t, mode, "save-error", "%v", err)
@@ -164,6 +169,9 @@ func runC06(cs c06Case) (string, []lib.Problem) {
 				add(ci, t, mode, "load-failed", "%v %s", lerr, pm)
 				dst.env.Close()
 				continue
+			}
+			if got := timing.GetIDGeneratorNextID(); got != idAtSave {
+				add(ci, t, mode, "id-counter-not-restored", "the ID counter is %d right after LoadCheckpoint, it was %d when the checkpoint was saved", got, idAtSave)
 			}
 			if m := dst.env.Run(400000); m != "" {
 				add(ci, t, mode, "resumed-run-panic", "%s", m)
